@@ -68,6 +68,8 @@ mod messages;
 mod mls_storage;
 mod snapshot;
 mod welcomes;
+#[cfg(feature = "verif-hooks")]
+pub mod verif_hooks;
 
 use self::mls_storage::{
     GroupDataType, MlsEncryptionKeys, MlsEpochKeyPairs, MlsGroupData, MlsKeyPackages,
@@ -637,6 +639,8 @@ impl MdkMemoryStorage {
             .duration_since(std::time::UNIX_EPOCH)
             .expect("System time before Unix epoch")
             .as_secs();
+        #[cfg(feature = "verif-hooks")]
+        let created_at = crate::verif_hooks::snapshot_now(created_at);
 
         GroupScopedSnapshot {
             group_id: group_id.clone(),
